@@ -9,10 +9,10 @@ pub fn prop() -> Prop {
     Prop {
         id: "C18",
         level: "model_checking",
-        rule: "(8 base expressions and 3 big ones: nesting depth 33, a 300-character literal, 130 arguments) paths ending in a separator (.a. / .a.b# / (len .a.)) in every position; every foreign output option next to every option of the style's own group; every corrupted configuration alone and next to each of 8 valid neighbour options (--take 0/1, --skip, --unique, --merge, --only-objects-and-arrays, a regex cache, --on-error=panic); valid configurations = 7 option positions (--select, --filter, --split-by, --group-by, --sort-by, --set variable, --set macro) x 8 base expressions x 6 output styles (+ every pure function with a canonical argument list in every position, json style); corruptions (one fault each): truncation at EVERY byte offset that lies inside parentheses or a string, one '(' or ')' too many, unknown function name, arity min-1 / max+1 for every function, trailing garbage of 4 kinds, bad sort directions, malformed --set (no '=', empty name, empty macro name, duplicate, empty value), output options of another style, csv without selections / with grouping / with merge, --headers without selections, invalid enum and numeric option values; non-trivial = the uncorrupted configuration runs Ok and prints >= 1 byte; distinct by construction",
+        rule: "(8 base expressions and 3 big ones: nesting depth 33, a 300-character literal, 130 arguments) paths ending in a separator (.a. / .a.b# / (len .a.)) in every position; every foreign output option next to every option of the style's own group; every corrupted configuration alone and next to each of 8 valid neighbour options (--take 0/1, --skip, --unique, --merge, --only-objects-and-arrays, a regex cache, --on-error=panic); valid configurations = 7 option positions (--select, --filter, --split-by, --group-by, --sort-by, --set variable, --set macro) x 8 base expressions x 6 output styles (+ every pure function with a canonical argument list in every position, json style); corruptions (one fault each): truncation at EVERY byte offset that lies inside parentheses or a string, one '(' or ')' too many, unknown function name, arity min-1 / max+1 for every function, trailing garbage of 4 kinds, bad sort directions, malformed --set (no '=', empty name, empty macro name, duplicate, empty value), output options of another style, csv without selections / with grouping / with merge, --headers without selections, invalid enum and numeric option values; non-trivial = the uncorrupted configuration runs Ok and prints >= 1 byte; distinct by construction; every arrangement of <=4 --set options over {a=1, a=2, @a=1, @a=.x, b=1} that binds the same variable or the same macro twice; references /K/ and /Full name/ to a selected name cut anywhere before their closing slash (bare, inside a call, last argument, pipe stage) in 8 option positions",
         explanation: "each corrupted configuration is executed on a non-empty input; oracle: Err (or clap usage error), zero bytes on stdout, the stdin factory is never invoked",
         assumptions: COMMON_ASSUMPTIONS.to_vec(),
-        guards: vec!["dangling-path-separator", "with-a-neighbour-option", "truncation", "arity", "trailing-garbage", "set-malformed", "style-mismatch", "csv-without-selection", "valid-config-prints"],
+        guards: vec!["truncated-selected-name-reference", "duplicate-set-with-another-binding-in-between", "dangling-path-separator", "with-a-neighbour-option", "truncation", "arity", "trailing-garbage", "set-malformed", "style-mismatch", "csv-without-selection", "valid-config-prints"],
         budget_s: (100, 900),
         single_worker: false,
         run,
@@ -332,6 +332,83 @@ fn run(ctx: &mut Ctx) {
                 let mut a2 = a.clone();
                 a2.extend(s.iter().map(|x| x.to_string()));
                 judge(ctx, "set-malformed", &format!("{name} last, {}", STYLES[style].0), a2, true);
+            }
+        }
+        // the same variable or the same macro given twice, in every arrangement of <=4 --set options (a variable and a
+        // macro may share a name; whatever stands between the two duplicates, the configuration is invalid)
+        {
+            let items = ["a=1", "a=2", "@a=1", "@a=.x", "b=1"];
+            let kind = |i: usize| ["var a", "var a", "mac a", "mac a", "var b"][i];
+            let mut seqs: Vec<Vec<usize>> = Vec::new();
+            crate::explore::seqs_upto(items.len(), 4, |s| seqs.push(s.to_vec()));
+            for s in seqs {
+                let dup = (0..s.len()).any(|i| (0..i).any(|j| kind(s[i]) == kind(s[j])));
+                if !dup || s.len() < 2 {
+                    continue;
+                }
+                if s.len() >= 3 && (1..s.len() - 1).any(|m| (0..m).any(|i| (m + 1..s.len()).any(|j| kind(s[i]) == kind(s[j]) && kind(s[m]) != kind(s[i])))) {
+                    ctx.guard("duplicate-set-with-another-binding-in-between");
+                }
+                for style in [0usize, 4] {
+                    let (_, sargs, needs_sel) = STYLES[style];
+                    let mut a: Vec<String> = sargs.iter().map(|x| x.to_string()).collect();
+                    if needs_sel {
+                        a.push("--select=.k=K".into());
+                    }
+                    a.extend(s.iter().map(|i| format!("--set={}", items[*i])));
+                    judge(ctx, "set-malformed", &format!("duplicate in {:?}, {}", s.iter().map(|i| items[*i]).collect::<Vec<_>>(), STYLES[style].0), a, true);
+                }
+            }
+        }
+        // a reference to a selected name that lost its closing slash, as the last token of the option and inside a call
+        {
+            let refs: [(&str, &str); 2] = [("K", ".k"), ("Full name", ".s")];
+            for (name, src) in refs {
+                let whole = format!("/{name}/");
+                let hosts: Vec<(&str, String)> = vec![("bare", whole.clone()), ("in-call", format!("(concat {whole} \"x\")")), ("after-call-argument", format!("(concat \"x\" {whole})")), ("in-pipe", format!("(| {whole} (len .))"))];
+                for (hname, host) in hosts {
+                    let start = host.find('/').unwrap();
+                    let end = start + whole.len();
+                    for pos in ["select", "select-named", "sort", "sort-desc", "group", "filter", "split", "setmacro"] {
+                        let build = |e: &str| -> Vec<String> {
+                            let mut a = vec![format!("--select={src}={name}")];
+                            match pos {
+                                "select" => a.push(format!("--select={e}")),
+                                "select-named" => a.push(format!("--select={e}=col")),
+                                "sort" => a.push(format!("--sort-by={e}")),
+                                "sort-desc" => a.push(format!("--sort-by={e}=DESC")),
+                                "group" => a.push(format!("--group-by={e}")),
+                                "filter" => a.push(format!("--filter={e}")),
+                                "split" => a.push(format!("--split-by={e}")),
+                                _ => {
+                                    a.push(format!("--set=@m={e}"));
+                                    a.push("--select=@m=mac".into());
+                                }
+                            }
+                            a
+                        };
+                        let vo = ctx.run(&Case::owned(build(&host), INPUT.to_vec()));
+                        ctx.case_done();
+                        if !vo.res.is_ok() {
+                            ctx.machinery_error(format!("base configuration is not valid: {:?}: {}", build(&host), vo.res.short()));
+                            continue;
+                        }
+                        ctx.guard("truncated-selected-name-reference");
+                        // cut inside the reference: at least the opening slash is kept, the closing one is lost
+                        for cut in start + 1..end {
+                            if !host.is_char_boundary(cut) {
+                                continue;
+                            }
+                            // `select-named`/`sort-desc` keep their suffix: the reference then swallows it and never ends
+                            let e = if hname == "bare" { host[..cut].to_string() } else { format!("{}{}", &host[..cut], &host[end..]) };
+                            // inside a call the rest of the text may supply a later slash only if it contains one
+                            if e[start + 1..].contains('/') {
+                                continue;
+                            }
+                            judge(ctx, "truncation", &format!("{pos}/{hname} {e:?}"), build(&e), true);
+                        }
+                    }
+                }
             }
         }
         let mismatches: Vec<(&str, Vec<&str>)> = vec![
